@@ -1024,7 +1024,7 @@ Fixpoint powmod_loop (fuel : nat) (i l : Z) (bit : Z -> bool) (p a : option bint
 (* None = the C raises (zero modulus / negative power) or a model loop ran out of fuel *)
 Definition fiBIntPowerMod (a b c : bint) : option bint :=
   if bintIsZero c then None
-  else if bintIsZero b then Some bint1
+  else if bintIsZero b then bintMod bint1 c      (* 1 mod c: 0 when |c| = 1 *)
   else match bintMod a c with
        | None => None
        | Some reda =>
@@ -1044,6 +1044,11 @@ Definition fiBIntDivide (a b : bint) : option (bint * bint) :=
 Definition fiBIntTimesPlus (a b c : bint) : bint := bintPlus (bintTimes a b) c.
 Definition fiBIntShiftUp (b : bint) (n : Z) : bint := bintShift b n.
 Definition fiBIntShiftDn (b : bint) (n : Z) : bint := bintShift b (- n).
+
+(* driver helper (not used by any theorem): results longer than this many bits are printed by the model
+   driver without their decimal text (the conversion is quadratic in the extracted arithmetic); the
+   explicit "tostr" operation always converts *)
+Definition text_limit_ok (b : bint) : bool := bintLength b <=? 700.
 
 (* ------------------------------------------------------------------ value and normal form *)
 Fixpoint lval (ds : list Z) : Z :=
